@@ -111,8 +111,16 @@ class World:
         def sample(sh: bytes, height: int, get: Callable[[int], Any]) -> bytes:
             # chain-sample oracle: a deterministic injective function of (summary hash, the ancestor view's blocks at
             # height-1 and height-2); the real sampler is the subject of C05.e(ii).
-            top = get(height - 1).hash()
-            below = get(height - 2).hash() if height >= 2 else top
+            # A stated height above the view's real length would index blocks that do not exist; the real sampler draws
+            # pseudo-random indices below the stated height, so an adversary who grinds the nonce gets indices that do
+            # exist. The oracle grants that: it falls back to the view's real top (the height rule, not a missing ancestor,
+            # must be what refuses such a block).
+            try:
+                top = get(height - 1).hash()
+                below = get(height - 2).hash() if height >= 2 else top
+            except KeyError:
+                top = get(self.h - 1).hash()
+                below = get(self.h - 2).hash() if self.h >= 2 else top
             self.sample_log.append((height, top))
             return b"CS" + top[:2] + below[:2] + bytes([len(sh) & 0xFF]) + sh[-4:] + b"\x00" * 21
 
